@@ -110,7 +110,11 @@ theorem prayerTimesDt_ok_of_times (p : Params α) (loc : Location α) (rd : Int)
     obtain ⟨h2, hh2⟩ := getHoursAdjExt_ok (imsaakParams2 p) (topFromJd (JD.new rd loc.gmt) loc.coords) (w.getD defaultWeather)
     obtain ⟨h0, hh0⟩ := getHoursAdjExt_ok p (topFromJd (JD.new rd loc.gmt) loc.coords) (w.getD defaultWeather)
     simp only [hh1, hh2, hh0]
-    cases fajrExtreme h1 <;> cases fajrExtreme h0 <;> simp <;> exact hopt _ _ _
+    have hflag : ∀ r : Except Panic (Option PT), (∃ x, r = .ok x) → ∃ x, flagExtreme r = .ok x := by
+      rintro r ⟨x, rfl⟩
+      cases x <;> exact ⟨_, rfl⟩
+    cases fajrExtreme h1 <;> cases fajrExtreme h0 <;> simp <;>
+      first | exact hopt _ _ _ | exact hflag _ (hopt _ _ _)
   obtain ⟨im, him⟩ := him
   obtain ⟨f, hf⟩ := hopt p .Fajr h.fajr
   obtain ⟨s, hs⟩ := hopt p .Shurooq h.shur
